@@ -1,102 +1,17 @@
 ----------------------------- MODULE SMGStereo -----------------------------
 (***************************************************************************)
-(* Stereodescriptor theory from first principles.                          *)
-(*                                                                         *)
-(* Every descriptor class is DEFINED by its idealised coordination figure  *)
-(* with integer coordinates.  The symmetry group of a class is DERIVED     *)
-(* from that geometry (distance preserving permutations of the positions;  *)
-(* proper ones preserve every orientation determinant, improper ones       *)
-(* negate every one).  Nothing here is copied from the implementation's    *)
-(* permutation tables.                                                     *)
-(*                                                                         *)
-(* Positions are 1-based here (TLA+ sequences); the implementation is      *)
-(* 0-based.  A descriptor is [cls, atoms, par]; par \in {-1,0,1,NoPar}.    *)
+(* Stereodescriptor theory.  The idealised coordination figures and the    *)
+(* derivation of their symmetry groups from geometry live in SMGFigures.   *)
+(* TLC does not cache those (expensive) constant definitions, so the       *)
+(* groups are tabulated once by TLC itself into the generated module       *)
+(* SMGGroups (tools/gen_groups.py); MC_StereoCases checks, as an ASSUME,   *)
+(* that every table equals the group derived from the figure.              *)
 (***************************************************************************)
-EXTENDS Integers, Sequences, FiniteSets, TLC
+EXTENDS SMGFigures, SMGGroups
 
-NoPar  == 2              \* "parity is None"
-NoAtom == -999999999     \* "None" inside an atom tuple (lone pair placeholder)
-
-Classes == {"Tetrahedral", "SquarePlanar", "TrigonalBipyramidal",
-            "Octahedral", "PlanarBond", "AtropBond"}
-AtomClasses == {"Tetrahedral", "SquarePlanar", "TrigonalBipyramidal", "Octahedral"}
-BondClasses == {"PlanarBond", "AtropBond"}
-
-(* position -> integer point; centre / bond atoms included *)
-Figure(c) ==
-  CASE c = "Tetrahedral" ->
-         << <<0,0,0>>, <<1,1,1>>, <<1,-1,-1>>, <<-1,1,-1>>, <<-1,-1,1>> >>
-    [] c = "SquarePlanar" ->
-         << <<0,0,0>>, <<1,0,0>>, <<0,1,0>>, <<-1,0,0>>, <<0,-1,0>> >>
-    [] c = "TrigonalBipyramidal" ->
-         << <<0,0,0>>, <<1,1,1>>, <<-1,-1,-1>>, <<1,-1,0>>, <<0,1,-1>>, <<-1,0,1>> >>
-    [] c = "Octahedral" ->
-         << <<0,0,0>>, <<0,0,1>>, <<0,0,-1>>, <<1,0,0>>, <<0,1,0>>, <<-1,0,0>>, <<0,-1,0>> >>
-    [] c = "PlanarBond" ->
-         << <<-2,1,0>>, <<-2,-1,0>>, <<-1,0,0>>, <<1,0,0>>, <<2,1,0>>, <<2,-1,0>> >>
-    [] c = "AtropBond" ->
-         << <<-2,0,1>>, <<-2,0,-1>>, <<-1,0,0>>, <<1,0,0>>, <<2,-1,0>>, <<2,1,0>> >>
-
-Arity(c) == Len(Figure(c))
-
-(* parities a descriptor of the class may carry when it is specified *)
-ClassParities(c) == IF c \in {"SquarePlanar", "PlanarBond"} THEN {0} ELSE {1, -1}
-
-Sub(p, q) == << p[1]-q[1], p[2]-q[2], p[3]-q[3] >>
-Dot(p, q) == p[1]*q[1] + p[2]*q[2] + p[3]*q[3]
-D2(p, q)  == Dot(Sub(p,q), Sub(p,q))
-Det3(a, b, c) ==   a[1]*(b[2]*c[3] - b[3]*c[2])
-                 - a[2]*(b[1]*c[3] - b[3]*c[1])
-                 + a[3]*(b[1]*c[2] - b[2]*c[1])
-Sign(x) == IF x > 0 THEN 1 ELSE IF x < 0 THEN -1 ELSE 0
-
-(* orientation of the ordered position quadruple in the figure F *)
-Orient(F, i, j, k, l) == Sign(Det3(Sub(F[j],F[i]), Sub(F[k],F[i]), Sub(F[l],F[i])))
-
-Perms(n) == Permutations(1..n)      \* TLC builtin: all bijections on 1..n
-
-(* isometries of the figure, as permutations of positions *)
-SymOf(F) == { pi \in Perms(Len(F)) :
-                \A i, j \in 1..Len(F) : i < j => D2(F[i],F[j]) = D2(F[pi[i]],F[pi[j]]) }
-
-Quads(n) == { q \in (1..n) \X (1..n) \X (1..n) \X (1..n) :
-                q[1] < q[2] /\ q[2] < q[3] /\ q[3] < q[4] }
-
-ProperOf(F, S) == { pi \in S : \A q \in Quads(Len(F)) :
-     Orient(F, pi[q[1]], pi[q[2]], pi[q[3]], pi[q[4]]) = Orient(F, q[1], q[2], q[3], q[4]) }
-ImproperOf(F, S) == { pi \in S : \A q \in Quads(Len(F)) :
-     Orient(F, pi[q[1]], pi[q[2]], pi[q[3]], pi[q[4]]) = - Orient(F, q[1], q[2], q[3], q[4]) }
-
-(* The three groups, computed once per class (TLC caches zero-arity defs) *)
-SymTet == SymOf(Figure("Tetrahedral"))
-SymSP  == SymOf(Figure("SquarePlanar"))
-SymTBP == SymOf(Figure("TrigonalBipyramidal"))
-SymOct == SymOf(Figure("Octahedral"))
-SymPB  == SymOf(Figure("PlanarBond"))
-SymAB  == SymOf(Figure("AtropBond"))
-Sym(c) == CASE c = "Tetrahedral" -> SymTet [] c = "SquarePlanar" -> SymSP
-            [] c = "TrigonalBipyramidal" -> SymTBP [] c = "Octahedral" -> SymOct
-            [] c = "PlanarBond" -> SymPB [] c = "AtropBond" -> SymAB
-
-PrTet == ProperOf(Figure("Tetrahedral"), SymTet)
-PrSP  == ProperOf(Figure("SquarePlanar"), SymSP)
-PrTBP == ProperOf(Figure("TrigonalBipyramidal"), SymTBP)
-PrOct == ProperOf(Figure("Octahedral"), SymOct)
-PrPB  == ProperOf(Figure("PlanarBond"), SymPB)
-PrAB  == ProperOf(Figure("AtropBond"), SymAB)
-Proper(c) == CASE c = "Tetrahedral" -> PrTet [] c = "SquarePlanar" -> PrSP
-            [] c = "TrigonalBipyramidal" -> PrTBP [] c = "Octahedral" -> PrOct
-            [] c = "PlanarBond" -> PrPB [] c = "AtropBond" -> PrAB
-
-ImTet == ImproperOf(Figure("Tetrahedral"), SymTet)
-ImSP  == ImproperOf(Figure("SquarePlanar"), SymSP)
-ImTBP == ImproperOf(Figure("TrigonalBipyramidal"), SymTBP)
-ImOct == ImproperOf(Figure("Octahedral"), SymOct)
-ImPB  == ImproperOf(Figure("PlanarBond"), SymPB)
-ImAB  == ImproperOf(Figure("AtropBond"), SymAB)
-Improper(c) == CASE c = "Tetrahedral" -> ImTet [] c = "SquarePlanar" -> ImSP
-            [] c = "TrigonalBipyramidal" -> ImTBP [] c = "Octahedral" -> ImOct
-            [] c = "PlanarBond" -> ImPB [] c = "AtropBond" -> ImAB
+Sym(c)      == GSym(c)
+Proper(c)   == GProper(c)
+Improper(c) == GImproper(c)
 
 Chiral(c) == Proper(c) \cap Improper(c) = {}
 
